@@ -228,12 +228,22 @@ func NewMatchField[Int constraints.Integer | *big.Int | ~[]byte, Mask constraint
 		return nil, err
 	}
 	value := conv(data)
+	if value.Sign() < 0 {
+		return nil, fmt.Errorf("invalid negative data: %s", value)
+	}
 	length := field.Length
 	if len(mask) > 0 {
 		var maskInt *big.Int
 		length /= 2
+		for _, m := range mask {
+			// offset and width must lie inside the field (this also bounds the shifts below)
+			if m < 0 || uint64(m) > 8*uint64(length) {
+				return nil, fmt.Errorf("invalid mask argument: %d", m)
+			}
+		}
 		if len(mask) != 3 || mask[2] == 1 {
-			value = value.Lsh(value, uint(mask[0]))
+			// shift a copy: data may be the caller's *big.Int
+			value = new(big.Int).Lsh(value, uint(mask[0]))
 		}
 		if len(mask) == 1 {
 			maskInt = rangeMask(uint(mask[0]), uint(value.BitLen()))
@@ -244,7 +254,13 @@ func NewMatchField[Int constraints.Integer | *big.Int | ~[]byte, Mask constraint
 		if value.Cmp(maskValue) != 0 {
 			return nil, fmt.Errorf("invalid mask and data")
 		}
+		if maskInt.BitLen() > 8*int(length) {
+			return nil, fmt.Errorf("mask does not fit in the %d-byte field", length)
+		}
 		field.Mask = big2byte(maskInt, length)
+	}
+	if value.BitLen() > 8*int(length) {
+		return nil, fmt.Errorf("data does not fit in the %d-byte field", length)
 	}
 	field.Value = big2byte(value, length)
 	return field, nil
